@@ -219,6 +219,16 @@ def node_mutations(data, rng, tier="quick", open_strings=True, parts=("nodes", "
             yield ("integer=0@%s" % w, encode(tree, {id(t): lambda n, c: n.tag + b"\x01\x00"}))
             yield ("integer=-1@%s" % w, encode(tree, {id(t): lambda n, c: n.tag + b"\x01\xff"}))
             yield ("integer=2^64@%s" % w, encode(tree, {id(t): lambda n, c: n.tag + b"\x09\x01" + bytes(8)}))
+        if t.children is None and t.universal == der.T_NULL:
+            # content where the type defines none (no expectation attached: these inputs are offered for totality, and as
+            # things a decoder might remember)
+            yield ("null-with-content@%s" % w, encode(tree, {id(t): lambda n, c: n.tag + b"\x01\x00"}))
+            yield ("null-with-content@%s" % w, encode(tree, {id(t): lambda n, c: n.tag + b"\x02\xab\xcd"}))
+        if t.children is None and t.universal == der.T_BOOLEAN:
+            yield ("boolean-odd-content@%s" % w, encode(tree, {id(t): lambda n, c: n.tag + b"\x01\x01"}))
+            yield ("boolean-odd-content@%s" % w, encode(tree, {id(t): lambda n, c: n.tag + b"\x02\xff\xff"}))
+        if t.children is None and t.universal == der.T_BIT_STRING and t.content:
+            yield ("bitstring-unused-bits@%s" % w, encode(tree, {id(t): lambda n, c: n.tag + der.enc_len(len(c)) + b"\x07" + c[1:]}))
     # truncation at every prefix (sampled when long)
     n = len(base)
     if "prefix" not in parts:
